@@ -66,7 +66,7 @@ Qed.
 Inductive step_ok (isReq : bool) (st : pst) (f : field) (st' : pst) : Prop :=
 | StepPseudo sl :
     is_pseudo (fname f) = true -> pRegular st = false -> fname f = slot_name sl ->
-    get_flag sl (pSeen st) = false -> slot_is_response sl = negb isReq ->
+    get_flag sl (pSeen st) = false -> slot_is_response sl = negb isReq -> fvalue f <> [] ->
     st' = PS (set_slot sl (fvalue f) (pPs st)) (set_flag sl (pSeen st)) (pHeaders st) false (pReadCL st) (pCL st) (pLimit st - fsize f) ->
     step_ok isReq st f st'
 | StepCLFirst :
@@ -101,6 +101,7 @@ Proof.
       destruct (get_flag sl (pSeen st)) eqn:Ee; [discriminate|].
       destruct (isReq && slot_is_response sl) eqn:E1; [discriminate|].
       destruct (negb isReq && negb (slot_is_response sl)) eqn:E2; [discriminate|].
+      destruct (is_empty (fvalue f)) eqn:E3; [discriminate|]. apply is_empty_false in E3.
       inversion H; subst st'. eapply StepPseudo; eauto.
       destruct isReq, (slot_is_response sl); simpl in *; congruence.
     + destruct (validate_regular f) as [r|] eqn:Evr; [discriminate|].
@@ -114,9 +115,9 @@ Proof.
   - intros (Hl & Hlo & Hv & Hs).
     replace (pLimit st - fsize f <? 0) with false by (symmetry; apply Z.ltb_ge; auto).
     rewrite Hlo, Hv. simpl.
-    destruct Hs as [sl Hp Hr Hn Hg Hk ->| Hp Hvr Hn Hrc -> | Hp Hvr Hn Hrc Hcl -> | Hp Hvr Hn ->]; rewrite Hp.
+    destruct Hs as [sl Hp Hr Hn Hg Hk Hne ->| Hp Hvr Hn Hrc -> | Hp Hvr Hn Hrc Hcl -> | Hp Hvr Hn ->]; rewrite Hp.
     + rewrite Hr. apply pseudo_slot_spec in Hn. rewrite Hn, Hg.
-      rewrite Hk. destruct isReq; simpl; reflexivity.
+      rewrite Hk. apply is_empty_false in Hne. rewrite Hne. destruct isReq; simpl; reflexivity.
     + rewrite Hvr, Hn, beq_refl, Hrc. reflexivity.
     + rewrite Hvr, Hn, beq_refl, Hrc. simpl. rewrite Hcl, beq_refl. simpl. reflexivity.
     + rewrite Hvr. apply beq_neq in Hn. rewrite Hn. reflexivity.
@@ -142,15 +143,15 @@ Lemma step_field_wf isReq st f st' :
 Proof.
   intros Hlo Hv Hs. unfold field_wf. split; [apply lower_ok_spec; auto|]. split; [apply value_ok_spec; auto|].
   assert (Hreg : is_pseudo (fname f) = false -> validate_regular f = None ->
-                 (pseudo f -> In (fname f) (allowed_pseudo isReq)) /\
+                 (pseudo f -> In (fname f) (allowed_pseudo isReq) /\ fvalue f <> []) /\
                  (~ pseudo f -> rfc_token (fname f) /\ ~ In (fname f) connection_specific /\ (fname f = bs "te" -> fvalue f = bs "trailers"))).
   { intros Hp Hvr. split.
     - intros Hps. apply is_pseudo_spec in Hps. congruence.
     - intros _. apply validate_regular_spec in Hvr as (H1 & H2 & H3).
       split; [apply token_ok_spec; auto|]. split; [rewrite <- conn_specific_rfc; apply mem_false; auto|exact H3]. }
-  destruct Hs as [sl Hp Hr Hn Hg Hk _| Hp Hvr _ _ _ | Hp Hvr _ _ _ _ | Hp Hvr _ _]; auto.
+  destruct Hs as [sl Hp Hr Hn Hg Hk Hne _| Hp Hvr _ _ _ | Hp Hvr _ _ _ _ | Hp Hvr _ _]; auto.
   split.
-  - intros _. rewrite Hn. apply slot_allowed; auto.
+  - intros _. split; auto. rewrite Hn. apply slot_allowed; auto.
   - intros Hnp. apply is_pseudo_false_spec in Hnp. congruence.
 Qed.
 
@@ -193,7 +194,7 @@ Qed.
 
 (** ** size *)
 Lemma step_limit isReq st f st' : step_ok isReq st f st' -> pLimit st' = pLimit st - fsize f.
-Proof. intros [sl _ _ _ _ _ ->| _ _ _ _ -> | _ _ _ _ _ -> | _ _ _ ->]; reflexivity. Qed.
+Proof. intros [sl _ _ _ _ _ _ ->| _ _ _ _ -> | _ _ _ _ _ -> | _ _ _ ->]; reflexivity. Qed.
 
 Lemma fsize_32 f : fsize f = zlen (fname f) + zlen (fvalue f) + 32.
 Proof. reflexivity. Qed.
@@ -211,11 +212,11 @@ Qed.
 (** ** order *)
 Lemma step_regular isReq st f st' :
   step_ok isReq st f st' -> pRegular st' = if is_pseudo (fname f) then false else true.
-Proof. intros [sl Hp _ _ _ _ ->| Hp _ _ _ -> | Hp _ _ _ _ -> | Hp _ _ ->]; rewrite Hp; reflexivity. Qed.
+Proof. intros [sl Hp _ _ _ _ _ ->| Hp _ _ _ -> | Hp _ _ _ _ -> | Hp _ _ ->]; rewrite Hp; reflexivity. Qed.
 
 Lemma step_pseudo_needs_no_regular isReq st f st' :
   step_ok isReq st f st' -> pRegular st = true -> is_pseudo (fname f) = false.
-Proof. intros [sl Hp Hr _ _ _ _| Hp _ _ _ _ | Hp _ _ _ _ _ | Hp _ _ _]; auto. congruence. Qed.
+Proof. intros [sl Hp Hr _ _ _ _ _| Hp _ _ _ _ | Hp _ _ _ _ _ | Hp _ _ _]; auto. congruence. Qed.
 
 Lemma ploop_after_regular isReq st fs st' :
   ploop isReq st fs false = inr st' -> pRegular st = true ->
@@ -245,7 +246,7 @@ Qed.
 Lemma step_flag_keep isReq st f st' sl :
   step_ok isReq st f st' -> get_flag sl (pSeen st) = true -> get_flag sl (pSeen st') = true.
 Proof.
-  intros [sl0 _ _ _ Hg _ ->| _ _ _ _ -> | _ _ _ _ _ -> | _ _ _ ->] Hne; simpl; auto.
+  intros [sl0 _ _ _ Hg _ _ ->| _ _ _ _ -> | _ _ _ _ _ -> | _ _ _ ->] Hne; simpl; auto.
   destruct (slot_eq_dec sl sl0) as [->|Hd]; [apply flag_set_same|]. rewrite flag_set_other; auto.
 Qed.
 
@@ -268,11 +269,11 @@ Proof.
   apply ploop_app_inv in H as (st3 & H2 & H).
   apply ploop_cons_inv in H as (st4 & Hsg & _). apply pstep_inv in Hsg as (_ & _ & _ & Hsg).
   apply is_pseudo_spec in Hf.
-  destruct Hs as [sl Hp Hr Hn Hg Hk ->| Hp _ _ _ _ | Hp _ _ _ _ _ | Hp _ _ _]; try congruence.
+  destruct Hs as [sl Hp Hr Hn Hg Hk Hne ->| Hp _ _ _ _ | Hp _ _ _ _ _ | Hp _ _ _]; try congruence.
   assert (Hset : get_flag sl (pSeen (PS (set_slot sl (fvalue f) (pPs st1)) (set_flag sl (pSeen st1)) (pHeaders st1) false (pReadCL st1) (pCL st1) (pLimit st1 - fsize f))) = true).
   { simpl. apply flag_set_same. }
   pose proof (ploop_flag_keep _ _ _ _ sl H2 Hset) as Hk3.
-  destruct Hsg as [sl' Hp' Hr' Hn' Hg' Hk' _| Hp' _ _ _ _ | Hp' _ _ _ _ _ | Hp' _ _ _]; try (rewrite <- Hfg in Hp'; congruence).
+  destruct Hsg as [sl' Hp' Hr' Hn' Hg' Hk' _ _| Hp' _ _ _ _ | Hp' _ _ _ _ _ | Hp' _ _ _]; try (rewrite <- Hfg in Hp'; congruence).
   assert (sl' = sl) by (apply slot_name_inj; congruence). subst sl'. congruence.
 Qed.
 
@@ -289,7 +290,7 @@ Proof.
     rewrite (IH _ Hr). unfold last_value_from. simpl. f_equal.
     assert (Hreg : is_pseudo (fname f) = false -> beq (fname f) (slot_name sl) = false).
     { intros Hp. apply beq_neq. intros E. rewrite E, slot_name_pseudo in Hp. discriminate. }
-    destruct Hs as [sl0 Hp _ Hn _ _ ->| Hp _ _ _ -> | Hp _ _ _ _ -> | Hp _ _ ->]; simpl; try (rewrite (Hreg Hp); reflexivity).
+    destruct Hs as [sl0 Hp _ Hn _ _ _ ->| Hp _ _ _ -> | Hp _ _ _ _ -> | Hp _ _ ->]; simpl; try (rewrite (Hreg Hp); reflexivity).
     destruct (slot_eq_dec sl sl0) as [->|Hd].
     + rewrite Hn, beq_refl, get_set_same. reflexivity.
     + rewrite get_set_other by auto.
@@ -305,7 +306,7 @@ Lemma step_cl isReq st f st1 :
   (pReadCL st = true -> pCL st1 = pCL st /\ pReadCL st1 = true) /\
   (fname f <> n_content_length -> pCL st1 = pCL st /\ pReadCL st1 = pReadCL st).
 Proof.
-  intros [sl _ _ Hn _ _ ->| _ _ Hn Hrc -> | _ _ Hn Hrc Hcl -> | _ _ Hn ->]; simpl.
+  intros [sl _ _ Hn _ _ _ ->| _ _ Hn Hrc -> | _ _ Hn Hrc Hcl -> | _ _ Hn ->]; simpl.
   - assert (Hnn : fname f <> n_content_length).
     { intros E. rewrite Hn in E. destruct sl; vm_compute in E; discriminate. }
     split; [intros E; contradiction|]. split; auto.
@@ -347,7 +348,7 @@ Proof.
   - apply ploop_cons_inv in H as (st1 & Hs & Hr). apply pstep_inv in Hs as (_ & _ & _ & Hs).
     rewrite (IH _ Hr). unfold headers_from. cbn [fold_left]. f_equal.
     change (bs "content-length") with n_content_length.
-    destruct Hs as [sl Hp _ _ _ _ ->| Hp _ Hn _ -> | Hp _ Hn _ _ -> | Hp _ Hn ->]; rewrite Hp; cbn [pHeaders orb]; auto.
+    destruct Hs as [sl Hp _ _ _ _ _ ->| Hp _ Hn _ -> | Hp _ Hn _ _ -> | Hp _ Hn ->]; rewrite Hp; cbn [pHeaders orb]; auto.
     + rewrite Hn, beq_refl. reflexivity.
     + rewrite Hn, beq_refl. reflexivity.
     + apply beq_neq in Hn. rewrite Hn. reflexivity.
